@@ -15,3 +15,5 @@ MUSTFAIL_PER_FN = {'quick': 1, 'thorough': 6}
 BOUNDED = [hub_bounded('C12-namespaces', ['ns', 'svghtml', 'plain', 'svg5', 'basic'], ['ns'], nsnames=('none', 'svg', 'default-html', 'default-x'))]
 
 FUNCTIONS = FUNCTIONS + [q for q in ATTRS if q not in FUNCTIONS]
+
+VALIDATION = [validate_bs4]
